@@ -61,6 +61,8 @@ static void stub_ubuild(const ldb_bloom_t *b, ldb_buffer_t *dst, const ldb_slice
   g_up_calls++;
 }
 
+/* growable buffers: the real buffer.c is inlined (its contracts are enforced in group buf) */
+#include "util/buffer.c"
 #include "dbformat.c"
 
 /* ------------------------------------------------------------------ spec */
@@ -132,4 +134,142 @@ void h_pkey_import(void) {
   x.data = buf; x.size = in_n; x.alloc = 0;
   r = ldb_pkey_import(&z, &x);
   CANARY();
+}
+
+/* ============================================================ pkey_export */
+/* AppendInternalKey: appends user_key ‖ LE64(sequence << 8 | type) to the buffer.
+ * Sizes / representation invariant for all sizes; the byte-content clauses are
+ * claimed when g_bcontent is set, which restricts capacity and key length to
+ * BUF_CONTENT_MAX (same convention as contracts/buf.h). */
+#define PKEY_OK(x) (__CPROVER_r_ok(x, sizeof(*(x))) && (x)->user_key.size <= VERIF_OBJ_MAX && SLICE_OK(&(x)->user_key) && \
+                    (x)->sequence <= SEQ_MAX && ((x)->type == LDB_TYPE_VALUE || (x)->type == LDB_TYPE_DELETION))
+void c_pkey_export(ldb_buffer_t *z, const ldb_pkey_t *x)
+__CPROVER_requires(__CPROVER_rw_ok(z, sizeof(*z)) && BUF_PRE(z) && BUF_KEEP_PRE(z) && PKEY_OK(x) && BUF_CONTENT_PRE(z, x->user_key.size))
+__CPROVER_requires(z->alloc == 0 || !__CPROVER_same_object(z->data, x->user_key.data))
+__CPROVER_assigns(z->data, z->size, z->alloc, __CPROVER_object_upto(z->data, z->alloc))
+__CPROVER_frees(z->data)
+__CPROVER_ensures(BUF_POST(z) && z->size == __CPROVER_old(z->size) + x->user_key.size + 8)
+__CPROVER_ensures(BUF_GROW_POST(z, z->size, __CPROVER_old(z->data), __CPROVER_old(z->alloc)))
+__CPROVER_ensures(g_bcontent ==> BUF_KEEP_POST(z, __CPROVER_old(z->size)))
+__CPROVER_ensures(g_bcontent ==> (g_bk < x->user_key.size ==> z->data[__CPROVER_old(z->size) + g_bk] == x->user_key.data[g_bk]))
+__CPROVER_ensures(g_bcontent ==> IS_LE64(z->data + __CPROVER_old(z->size) + x->user_key.size, PACK(x->sequence, x->type)))
+;
+#define H_PKEY_EXPORT(fname, cap, content) void fname(void) { \
+  ldb_buffer_t z; ldb_pkey_t p; \
+  IN_SIZE(in_alloc); IN_SIZE(in_size); IN_SIZE(in_j); IN_SIZE(in_k); IN_SIZE(in_un); IN_U64(in_seq); IN_U32(in_type); \
+  IN_BUF(ukey, in_un); \
+  g_bcontent = (content); \
+  ASSUME(in_size <= in_alloc && in_alloc <= (cap) && in_un <= (cap) && in_seq <= SEQ_MAX && in_type <= 1); \
+  z.alloc = in_alloc; z.size = in_size; z.data = in_alloc ? malloc(in_alloc) : NULL; \
+  ASSUME(in_alloc == 0 || z.data != NULL); \
+  g_bj = in_j; g_bk = in_k; g_bold = (in_j < in_size) ? z.data[in_j] : 0; \
+  p.user_key.data = ukey; p.user_key.size = in_un; p.user_key.alloc = 0; p.sequence = in_seq; p.type = (ldb_valtype_t)in_type; \
+  ldb_pkey_export(&z, &p); \
+  if (in_alloc <= 64 && in_un <= 64) { CANARY(); } \
+}
+H_PKEY_EXPORT(h_pkey_export, VERIF_OBJ_MAX, 0)
+H_PKEY_EXPORT(h_pkey_export_b, BUF_CONTENT_MAX, 1)
+
+/* =============================================================== ikey_set */
+/* InternalKey::Set: the buffer becomes exactly user_key ‖ LE64(sequence << 8 | type) */
+void c_ikey_set(ldb_ikey_t *ikey, const ldb_slice_t *user_key, ldb_seqnum_t sequence, ldb_valtype_t type)
+__CPROVER_requires(__CPROVER_rw_ok(ikey, sizeof(*ikey)) && BUF_PRE(ikey) && SL_OK(user_key) && user_key->size <= VERIF_OBJ_MAX)
+__CPROVER_requires(sequence <= SEQ_MAX && (type == LDB_TYPE_VALUE || type == LDB_TYPE_DELETION) && BUF_CONTENT_PRE(ikey, user_key->size))
+__CPROVER_requires(ikey->alloc == 0 || !__CPROVER_same_object(ikey->data, user_key->data))
+__CPROVER_assigns(ikey->data, ikey->size, ikey->alloc, __CPROVER_object_upto(ikey->data, ikey->alloc))
+__CPROVER_frees(ikey->data)
+__CPROVER_ensures(BUF_POST(ikey) && ikey->size == user_key->size + 8)
+__CPROVER_ensures(g_bcontent ==> (g_bk < user_key->size ==> ikey->data[g_bk] == user_key->data[g_bk]))
+__CPROVER_ensures(g_bcontent ==> IS_LE64(ikey->data + user_key->size, PACK(sequence, type)))
+;
+#define H_IKEY_SET(fname, cap, content) void fname(void) { \
+  ldb_buffer_t z; ldb_slice_t uk; \
+  IN_SIZE(in_alloc); IN_SIZE(in_size); IN_SIZE(in_k); IN_SIZE(in_un); IN_U64(in_seq); IN_U32(in_type); \
+  IN_BUF(ukey, in_un); \
+  g_bcontent = (content); \
+  ASSUME(in_size <= in_alloc && in_alloc <= (cap) && in_un <= (cap) && in_seq <= SEQ_MAX && in_type <= 1); \
+  z.alloc = in_alloc; z.size = in_size; z.data = in_alloc ? malloc(in_alloc) : NULL; \
+  ASSUME(in_alloc == 0 || z.data != NULL); \
+  g_bj = 0; g_bold = 0; g_bk = in_k; \
+  uk.data = ukey; uk.size = in_un; uk.alloc = 0; \
+  ldb_ikey_set(&z, &uk, in_seq, (ldb_valtype_t)in_type); \
+  if (in_alloc <= 64 && in_un <= 64) { CANARY(); } \
+}
+H_IKEY_SET(h_ikey_set, VERIF_OBJ_MAX, 0)
+H_IKEY_SET(h_ikey_set_b, BUF_CONTENT_MAX, 1)
+
+/* ================================================ pkey write/import round trip */
+/* ParseInternalKey(AppendInternalKey(p)) = p on the real code, user key <= 16 bytes */
+#define RT_MAX 16
+void h_pkey_rt(void) {
+  uint8_t out[RT_MAX + 8]; ldb_pkey_t p, q; ldb_slice_t enc; uint8_t *e; int r;
+  IN_SIZE(in_un); IN_SIZE(in_k); IN_U64(in_seq); IN_U32(in_type); IN_BYTES(in_key, RT_MAX);
+  ASSUME(in_un <= RT_MAX && in_seq <= SEQ_MAX && in_type <= 1);
+  p.user_key.data = in_key; p.user_key.size = in_un; p.user_key.alloc = 0; p.sequence = in_seq; p.type = (ldb_valtype_t)in_type;
+  CHECK(ldb_pkey_size(&p) == in_un + 8, "pkey_size: InternalKeyEncodingLength = user key + 8");
+  e = ldb_pkey_write(out, &p);
+  CHECK(e == out + in_un + 8, "pkey_write: writes user key + 8 bytes");
+  enc.data = out; enc.size = (size_t)(e - out); enc.alloc = 0;
+  r = ldb_pkey_import(&q, &enc);
+  CHECK(r == 1, "pkey round trip: a written internal key parses");
+  CHECK(q.sequence == in_seq && q.type == (ldb_valtype_t)in_type, "pkey round trip: sequence and type survive");
+  CHECK(q.user_key.data == out && q.user_key.size == in_un, "pkey round trip: user key is the prefix");
+  CHECK(!(in_k < in_un) || out[in_k] == in_key[in_k], "pkey round trip: user key bytes survive");
+  CANARY();
+}
+
+/* ============================================================== lkey_init */
+/* LookupKey: varint32(u + 8) ‖ user_key ‖ LE64(sequence << 8 | kValueTypeForSeek(=1));
+ * built in lkey->space when u + 13 <= 200, on the heap otherwise */
+#define LKEY_K(u) V32_SIZE((uint32_t)((u) + 8))
+void c_lkey_init(ldb_lkey_t *lkey, const ldb_slice_t *user_key, ldb_seqnum_t sequence)
+__CPROVER_requires(__CPROVER_w_ok(lkey, sizeof(*lkey)) && SL_OK(user_key) && user_key->size <= VERIF_U32_MAX - 8 && sequence <= SEQ_MAX)
+__CPROVER_requires(user_key->size == 0 || !__CPROVER_same_object(lkey, user_key->data))
+__CPROVER_assigns(*lkey)
+/* storage: inline space iff the conservative estimate u + 13 fits in 200 bytes, else a fresh heap block of u + 13 bytes */
+__CPROVER_ensures((user_key->size + 13 <= 200) == (lkey->start == lkey->space))
+__CPROVER_ensures(user_key->size + 13 > 200 ==> __CPROVER_is_fresh(lkey->start, user_key->size + 13))
+/* layout */
+__CPROVER_ensures(lkey->kstart == lkey->start + LKEY_K(user_key->size) && lkey->end == lkey->kstart + user_key->size + 8)
+/* bytes (claimed when g_bcontent is set: see the bounded twins) */
+__CPROVER_ensures(g_bcontent ==> (V_WELLFORMED(lkey->start, LKEY_K(user_key->size)) && V32_VAL(lkey->start, LKEY_K(user_key->size)) == (uint32_t)(user_key->size + 8)))
+__CPROVER_ensures(g_bcontent ==> IS_LE64(lkey->end - 8, PACK(sequence, 1)))
+__CPROVER_ensures(g_bcontent ==> (g_bk < user_key->size ==> lkey->kstart[g_bk] == user_key->data[g_bk]))
+;
+#define H_LKEY_INIT(fname, lo, hi, content) void fname(void) { \
+  ldb_lkey_t lk; ldb_slice_t uk, mk, ik, k; \
+  IN_SIZE(in_un); IN_SIZE(in_k); IN_U64(in_seq); IN_BUF(ukey, in_un); \
+  g_bcontent = (content); \
+  ASSUME(in_un >= (lo) && in_un <= (hi) && in_seq <= SEQ_MAX); \
+  uk.data = ukey; uk.size = in_un; uk.alloc = 0; g_bk = in_k; \
+  ldb_lkey_init(&lk, &uk, in_seq); \
+  mk = ldb_lkey_memtable_key(&lk); ik = ldb_lkey_internal_key(&lk); k = ldb_lkey_user_key(&lk); \
+  CHECK(mk.data == lk.start && mk.size == LKEY_K(in_un) + in_un + 8, "lkey_memtable_key: the whole length-prefixed entry"); \
+  CHECK(ik.data == lk.start + LKEY_K(in_un) && ik.size == in_un + 8, "lkey_internal_key: user key + 8-byte tag, after the length prefix"); \
+  CHECK(k.data == ik.data && k.size == in_un, "lkey_user_key: the internal key minus its 8-byte tag"); \
+  CHECK(mk.size <= in_un + 13, "lkey_init: never writes more than the u + 13 bytes it reserved"); \
+  if (in_un <= 300) { CANARY(); } \
+}
+H_LKEY_INIT(h_lkey_init, 0, VERIF_U32_MAX - 8, 0)
+H_LKEY_INIT(h_lkey_init_b, 0, 16, 1)       /* inline space */
+H_LKEY_INIT(h_lkey_init_h, 186, 190, 1)    /* both sides of the 200-byte threshold (u + 13 > 200 iff u >= 188) */
+
+/* ============================================================= lkey_clear */
+void c_lkey_clear(ldb_lkey_t *lkey)
+__CPROVER_requires(__CPROVER_rw_ok(lkey, sizeof(*lkey)) && (lkey->start == lkey->space || __CPROVER_is_freeable(lkey->start)))
+__CPROVER_assigns()
+__CPROVER_frees(lkey->start)
+__CPROVER_ensures(__CPROVER_old(lkey->start) != lkey->space ==> __CPROVER_was_freed(__CPROVER_old(lkey->start)))
+__CPROVER_ensures(lkey->start == __CPROVER_old(lkey->start) && lkey->kstart == __CPROVER_old(lkey->kstart) && lkey->end == __CPROVER_old(lkey->end))
+;
+void h_lkey_clear(void) {
+  ldb_lkey_t lk; IN_SIZE(in_heap_n); uint8_t *hp;
+  if (in_heap_n > 200) {
+    hp = malloc(in_heap_n); ASSUME(hp != NULL);
+    lk.start = hp; lk.kstart = hp + 2; lk.end = hp + in_heap_n;
+  } else {
+    lk.start = lk.space; lk.kstart = lk.space + 1; lk.end = lk.space + in_heap_n;
+  }
+  ldb_lkey_clear(&lk);
+  if (in_heap_n <= 300) { CANARY(); }
 }
